@@ -27,6 +27,7 @@ type concFunc struct {
 	gos    []string
 	// channels sent to inside a select that has a default clause (cannot block)
 	nbsends []string
+	recvs   [][2]string     // every channel receive: (channel, "blocking" | "select" | "nonblocking" = select with default)
 	gocalls map[string]bool // callees of go statements (they run on another goroutine)
 }
 
@@ -75,6 +76,7 @@ func (p *concPkg) analyse(name string, body *ast.BlockStmt, env map[string]strin
 	nclos := 0
 	inSelect := map[ast.Node]bool{}
 	inSelectDefault := map[ast.Node]bool{}
+	recvMode := map[*ast.UnaryExpr]string{}
 	goCall := map[ast.Node]bool{}
 	var visit func(n ast.Node) bool
 	visit = func(n ast.Node) bool {
@@ -97,6 +99,16 @@ func (p *concPkg) analyse(name string, body *ast.BlockStmt, env map[string]strin
 					if hasDefault {
 						inSelectDefault[cc.Comm] = true
 					}
+					ast.Inspect(cc.Comm, func(m ast.Node) bool {
+						if u, ok := m.(*ast.UnaryExpr); ok && u.Op == token.ARROW {
+							if hasDefault {
+								recvMode[u] = "nonblocking"
+							} else {
+								recvMode[u] = "select"
+							}
+						}
+						return true
+					})
 				}
 			}
 		case *ast.SendStmt:
@@ -111,10 +123,16 @@ func (p *concPkg) analyse(name string, body *ast.BlockStmt, env map[string]strin
 		case *ast.UnaryExpr:
 			if x.Op == token.ARROW {
 				cf.chops = append(cf.chops, [2]string{p.chanName(x.X, env), "recv"})
+				m := recvMode[x]
+				if m == "" {
+					m = "blocking"
+				}
+				cf.recvs = append(cf.recvs, [2]string{p.chanName(x.X, env), m})
 			}
 		case *ast.RangeStmt:
 			if t := p.chanName(x.X, env); strings.HasSuffix(strings.ToLower(t), "ch") {
 				cf.chops = append(cf.chops, [2]string{t, "recv"})
+				cf.recvs = append(cf.recvs, [2]string{t, "blocking"})
 			}
 		case *ast.GoStmt:
 			cf.gos = append(cf.gos, p.callName(x.Call, env))
@@ -415,6 +433,7 @@ func genConc(root, outdir string) {
 	o.p("(* every channel SEND the event-loop goroutine can execute inside package pfcp (PfcpServer.main and everything it calls,")
 	o.p("   go statements excluded): (function, channel, \"nonblocking\" = inside a select with a default clause | \"blocking\") *)")
 	rows = nil
+	var recvRows []string
 	{
 		seen := map[string]bool{}
 		var walk func(n string)
@@ -430,6 +449,9 @@ func genConc(root, outdir string) {
 			nb := map[string]int{}
 			for _, c := range cf.nbsends {
 				nb[c]++
+			}
+			for _, c := range cf.recvs {
+				recvRows = append(recvRows, fmt.Sprintf("  (%s, %s, %s)", coqStr(n), coqStr(c[0]), coqStr(c[1])))
 			}
 			for _, c := range cf.chops {
 				if c[1] == "send" || c[1] == "send-select" {
@@ -467,9 +489,15 @@ func genConc(root, outdir string) {
 			}
 		}
 		walk("PfcpServer.main")
+		// the driver calls back into the server on the loop's goroutine (release of buffered packets)
+		walk("PfcpServer.PopBufPkt")
 		sort.Strings(rows)
+		sort.Strings(recvRows)
 	}
 	o.p("Definition loop_sends : list (string * string * string) := [\n%s\n].\n", strings.Join(rows, ";\n"))
+	o.p("(* every channel RECEIVE the event-loop goroutine can execute inside package pfcp: (function, channel, \"blocking\" |")
+	o.p("   \"select\" = a case of a select without default | \"nonblocking\" = a case of a select with a default clause) *)")
+	o.p("Definition loop_recvs : list (string * string * string) := [\n%s\n].\n", strings.Join(recvRows, ";\n"))
 	o.p("(* every make(chan T, N): (function, target, capacity expression) *)")
 	rows = chanMakes(root, "internal/pfcp", files)
 	rows = append(rows, chanMakes(root, "internal/forwarder/perio", []string{"server.go"})...)
